@@ -520,7 +520,10 @@ def swap_rules(R, ctx):
     for (b2, bb, s) in aggregate_sites(f, r'state::Inner$', 'Active'):
         p = ctx.ip.prov(b2.path)
         roots = p.op_roots(s['rv']['ops'][1])
-        ok = any(r_[0] == 'call' and r_[1].endswith(('open_log_file', 'initialize_with_rotation')) for r_ in roots)
+        # a private helper that builds the aggregate from its parameter (e.g. `OpenedLogFile::into_active(self, ..)`): the parameter is followed to the call sites
+        xroots = {r_ for (_p, r_) in ctx.ip.expand(b2.path, roots)} | set(roots)
+        ok = any(r_[0] in ('call', 'via') and r_[1].endswith(('open_log_file', 'initialize_with_rotation')) for r_ in xroots) and \
+            not any(r_[0] == 'call' and re.search(r'File::create$|OpenOptions::open$|io::sink$|io::stdout$|io::stderr$', r_[1]) for r_ in xroots)
         R.check('R01.4', f"{b2.path}|active-writer-from-open", ok, "Inner::Active writer <= open_log_file",
                 f"Inner::Active is built with a writer that does not come from open_log_file ({sorted(map(str, roots))[:4]})", where=b2.loc(bb))
 
